@@ -10,8 +10,8 @@
                                        gauge's id / perpetual flag nor a non-sponsored stream's records.  A sponsored
                                        stream's records are the sponsorship distribution, read unvalidated at creation
                                        and at every epoch start: `liveS_sponsored_counterexample`.
-    ptrsOKS_reachable ................ the stored epoch pointers are resumable, after every `Admissible` history in
-                                       which no termination hits a stream named by an epoch pointer in the middle of
+    ptrsOKS_reachable ................ the stored epoch pointers are resumable, after every `Admissible` history
+                                       (sponsored streams included) in which no termination hits a stream named by an epoch pointer in the middle of
                                        its records (`TermSafe`, a decidable predicate: it runs the model along the
                                        history).  Needed: `ptrsOKS_terminated_counterexample` (the history of
                                        `paging_pointer_terminated_counterexample`).  In fact the stronger `StrongS`
@@ -60,24 +60,27 @@ theorem liveS_sponsored_counterexample :
   rw [this] at hg
   exact absurd hg (by simp)
 
-/-- **`PtrsOKS` along whole histories**: after every admissible history without sponsored streams (the EndBlock keeps
-    the pointers resumable when the records are live) in which no termination hits a stream named by an epoch pointer
-    in the middle of its records (`TermSafe`), the stored epoch pointers are resumable -/
-theorem ptrsOKS_reachable (now mi : Nat) (ops : List Op) (hw : Admissible ops) (hns : ∀ op ∈ ops, op.notSponsored)
+/-- **`PtrsOKS` along whole histories**: after every admissible history (sponsored streams INCLUDED) in which no
+    termination hits a stream named by an epoch pointer in the middle of its records (`TermSafe`), the stored epoch
+    pointers are resumable — termination under the pointer is the only way to lose `PtrsOKS` -/
+theorem ptrsOKS_reachable (now mi : Nat) (ops : List Op) (hw : Admissible ops)
     (hts : TermSafe (init now mi) ops) (hlen : (run (init now mi) ops).streams.length < maxU64) :
     PtrsOKS (run (init now mi) ops) := by
-  obtain ⟨hi, _, hst⟩ := run_live_strong ops _ (init_inv now mi) (init_named now mi) (init_strong now mi) hw hns hts hlen
+  obtain ⟨hi, hst⟩ := run_strong ops _ (init_inv now mi) (init_strong now mi) hw hts hlen
   exact ptrsOKS_of_strong _ hi hst
 
 /-- … in the stronger, inductive form: every stored pointer is at a first gauge, or names a stored ACTIVE stream of its
     own epoch identifier, or is the last-gauge pointer -/
 theorem pointers_name_active_streams_reachable (now mi : Nat) (ops : List Op) (hw : Admissible ops)
-    (hns : ∀ op ∈ ops, op.notSponsored) (hts : TermSafe (init now mi) ops)
+    (hts : TermSafe (init now mi) ops)
     (hlen : (run (init now mi) ops).streams.length < maxU64) (e : Nat) :
     let s := run (init now mi) ops
     let p := s.ptrs.getD e Pointer.last
     p.gaugeId = 0 ∨ (∃ st, getS s.streams p.streamId = some st ∧ p.streamId ∈ s.active.ids ∧ st.epochId = e) ∨ p = Pointer.last :=
-  (run_live_strong ops _ (init_inv now mi) (init_named now mi) (init_strong now mi) hw hns hts hlen).2.2 e
+  (run_strong ops _ (init_inv now mi) (init_strong now mi) hw hts hlen).2 e
+
+/-- non-vacuity of the sponsored case: the sponsored history above is `TermSafe` -/
+example : TermSafe (init 100 500) unknownGaugeHistory := by decide
 
 /-- **the exclusion `TermSafe` is needed**: the first 14 ops of `termHistory 1` (Props/C15) are admissible and create no
     sponsored stream; the last of them terminates stream 1 while the hour pointer is (stream 1, gauge 2) — `TermSafe`
